@@ -17,8 +17,46 @@ def td_us(td: timedelta) -> int:
     return td // US
 
 
-def mk_dt(us: int, off_min: int = 0) -> datetime:
+def mk_dt(us: int, off_min: int = 0, zone: str = None) -> datetime:
+    """Aware datetime denoting the instant `us`: in a fixed-offset zone, or (zone given) in an IANA zone with DST rules -
+    astimezone() then sets `fold` for the second occurrence of a repeated wall-clock hour."""
+    if zone:
+        return (EPOCH + timedelta(microseconds=us)).astimezone(get_zone(zone))
     return (EPOCH + timedelta(microseconds=us)).astimezone(timezone(timedelta(minutes=off_min)))
+
+
+_ZONES = {}
+ZONE_NAMES = ["Europe/London", "Europe/Berlin", "America/New_York", "Australia/Lord_Howe", "Europe/Lisbon", "Pacific/Auckland"]
+# UTC instants (s) of some 2021 DST transitions of those zones: [spring-forward, fall-back]
+ZONE_TRANSITIONS = {
+    "Europe/London": [1616893200, 1635642000], "Europe/Berlin": [1616893200, 1635642000], "Europe/Lisbon": [1616893200, 1635642000],
+    "America/New_York": [1615705200, 1636264800], "Australia/Lord_Howe": [1617462000, 1633188600],
+    "Pacific/Auckland": [1632578400, 1617458400],
+}
+
+
+def get_zone(name):
+    if name not in _ZONES:
+        import zoneinfo
+        _ZONES[name] = zoneinfo.ZoneInfo(name)
+    return _ZONES[name]
+
+
+def zones_available() -> bool:
+    try:
+        get_zone("Europe/London")
+        return True
+    except Exception:  # noqa: BLE001 - no tz database on this machine
+        return False
+
+
+def rand_zone_instant(rng):
+    """(us, zone): an instant within a few hours of a DST transition of an IANA zone (or anywhere, 30 %)"""
+    zone = rng.choice(ZONE_NAMES)
+    if rng.random() < 0.3:
+        return rand_instant(rng), zone
+    t = rng.choice(ZONE_TRANSITIONS[zone]) * 10**6
+    return t + rng.randrange(-3 * 3600 * 10**6, 3 * 3600 * 10**6) // 1000 * 1000 + rng.choice([0, 0, 1, 999, 500]), zone
 
 
 MAX_US = dt_us(datetime(2100, 1, 1, tzinfo=timezone.utc))
@@ -135,7 +173,7 @@ def rand_event_spec(rng, depth=3, max_dur=30 * DAY_US) -> dict:
 
 def mk_event(spec: dict):
     from aw_core.models import Event
-    return Event(id=spec.get("id"), timestamp=mk_dt(spec["ts"], spec.get("off", 0)),
+    return Event(id=spec.get("id"), timestamp=mk_dt(spec["ts"], spec.get("off", 0), spec.get("zone")),
                  duration=timedelta(microseconds=spec["dur"]), data=copy.deepcopy(spec.get("data", {})))
 
 
